@@ -172,6 +172,16 @@ def tie(ctx, model_ok=True):
                     if tyspec[0] == 'list':
                         node = loadcase.Q([node])
                     desc = 'directed:AC' if concrete else 'directed-abstract'
+                if 'PB' in names and rnd.random() < 0.15:
+                    # a class tag (registered or unknown) on a SEQUENCE or a dict node at a list / dict / Union position
+                    S = loadcase.S
+                    item = loadcase.M([(S('name'), S('n')), (S('radius'), S('3', 'int'))])
+                    if rnd.random() < 0.5:
+                        node, tyspec = loadcase.Q([item]), rnd.choice([('list', 0, ('class', 'PB')), ('union', [('class', 'PB'), ('list', 0, ('class', 'PB'))])])
+                    else:
+                        node, tyspec = loadcase.M([(S('k'), item)]), rnd.choice([('dict', 3, 'str', ('class', 'PB')), ('optional', ('dict', 3, 'str', ('class', 'PB')))])
+                    node.tag = rnd.choice(['!PC', '!PB', '!Unknown', 'tag:example.com,2019:PC'])
+                    desc = 'directed-fail:tag-on-collection'
                 if 'QB' in names and rnd.random() < 0.3:
                     cls = rnd.choice(['QB', 'QC', 'QD', 'RB', 'RC'])
                     S = loadcase.S
